@@ -210,6 +210,13 @@ class _ImmutableDeclaration(Declaration):
             _ImmutableDeclaration.__instance = object.__new__(cls)
         return _ImmutableDeclaration.__instance
 
+    def __init__(self):
+        # ``weakref()`` hands out this class as the "reference" to the
+        # singleton, so dereferencing one constructs us again. Only the
+        # first construction may set us up, or it would wipe what we imply.
+        if not getattr(self, '__sro__', None):
+            super().__init__()
+
     def __reduce__(self):
         return "_empty"
 
